@@ -228,6 +228,15 @@ fn gen_stmt_u(rng: &mut Rng, next_id: &mut i64, spread: i64) -> (String, bool) {
 /// compare index contents of the twins; returns a description of the first difference
 fn compare_indexes(mem: &Db, disk: &Db, rep: &mut Report, must_be_spilled: bool) -> Result<(), String> {
     for (ix, _, _) in indexes().iter().copied() {
+        // indexes come and go (DROP INDEX / DROP TABLE / ROLLBACK): the registries must agree
+        let (em, ed) = (mem.db.index_exists(ix), disk.db.index_exists(ix));
+        if em != ed {
+            return Err(format!("index {} exists on the in-memory twin: {}, on the disk-backed twin: {}", ix, em, ed));
+        }
+        if !em {
+            rep.count("index_checks_absent");
+            continue;
+        }
         let (m_disk, m, _) = contents(&mem.db, ix)?;
         let (d_disk, d, _) = contents(&disk.db, ix)?;
         if m_disk {
@@ -236,14 +245,114 @@ fn compare_indexes(mem: &Db, disk: &Db, rep: &mut Report, must_be_spilled: bool)
         if must_be_spilled && !d_disk {
             return Err(format!("index {} of the budget-0 twin was not spilled", ix));
         }
-        if d_disk {
-            rep.count("index_checks_disk_backed");
-        }
+        rep.count(if d_disk { "index_checks_disk_backed" } else { "index_checks_budget0_twin_in_memory" });
         if canon_contents(&m) != canon_contents(&d) {
             return Err(format!("contents of {} differ\n  in-memory : {}\n  disk-backed: {}", ix, canon_contents(&m), canon_contents(&d)));
         }
     }
     Ok(())
+}
+
+/// a DML statement of the current schema (never a query)
+fn gen_dml(rng: &mut Rng, next_id: &mut i64, spread: i64) -> String {
+    if schema() == 1 {
+        loop {
+            let (s, _) = gen_stmt_u(rng, next_id, spread);
+            if !s.starts_with("SELECT") {
+                return s;
+            }
+        }
+    }
+    let v = rng.range(0, spread);
+    match rng.below(5) {
+        0 => {
+            let r = gen_row(rng, *next_id, spread);
+            *next_id += 1;
+            format!("INSERT INTO t SELECT {}", r.iter().map(lit).collect::<Vec<_>>().join(", "))
+        }
+        1 => format!("UPDATE t SET a = {} WHERE id = {}", v, rng.below((*next_id).max(1) as u64)),
+        2 => format!("UPDATE t SET b = 's{}' WHERE a = {}", v, rng.range(0, spread)),
+        3 => format!("UPDATE t SET a = {}, c = {} WHERE a = {}", v, rng.range(0, 5), rng.range(0, spread)),
+        _ => format!("DELETE FROM t WHERE id = {}", rng.below((*next_id).max(1) as u64)),
+    }
+}
+
+/// queries through the first column of an index
+fn gen_probe_queries(rng: &mut Rng, ixi: usize, spread: i64) -> Vec<String> {
+    let (_, cols, _) = indexes()[ixi];
+    let col = cols.split(',').next().unwrap().trim();
+    let b = |rng: &mut Rng| -> String {
+        match col {
+            "b" => format!("'s{}'", rng.range(0, spread)),
+            "s" => format!("'k{:04}'", rng.range(0, spread * 4) * 25),
+            "dt" => lit(&date_of(rng.range(0, spread * 4))),
+            "a" | "n" => rng.range(0, spread).to_string(),
+            _ => format!("{:?}", grid(rng.range(0, spread * 4))),
+        }
+    };
+    vec![
+        format!("SELECT * FROM t WHERE {} = {}", col, b(rng)),
+        format!("SELECT * FROM t WHERE {} > {}", col, b(rng)),
+        format!("SELECT * FROM t WHERE {} <= {}", col, b(rng)),
+    ]
+}
+
+/// a transaction around DML and index DDL: BEGIN; DML…; [SAVEPOINT; DML…; ROLLBACK TO]; index DDL
+/// (DROP INDEX / CREATE INDEX / DROP TABLE); DML…; ROLLBACK | COMMIT; then queries through the index
+fn gen_txn_block(rng: &mut Rng, next_id: &mut i64, spread: i64, mem: &Db) -> Vec<String> {
+    let mut v = vec!["BEGIN".to_string()];
+    for _ in 0..rng.range(1, 3) {
+        v.push(gen_dml(rng, next_id, spread));
+    }
+    if rng.chance(1, 3) {
+        v.push("SAVEPOINT sp1".into());
+        for _ in 0..rng.range(1, 2) {
+            v.push(gen_dml(rng, next_id, spread));
+        }
+        if rng.chance(2, 3) {
+            v.push("ROLLBACK TO SAVEPOINT sp1".into());
+        }
+    }
+    let ixi = rng.below(indexes().len() as u64) as usize;
+    let (ix, cols, _) = indexes()[ixi];
+    let mut dropped_table = false;
+    match rng.below(10) {
+        0 => {
+            v.push("DROP TABLE t".into());
+            dropped_table = true;
+        }
+        1..=6 => v.push(if mem.db.index_exists(ix) { format!("DROP INDEX {}", ix) } else { format!("CREATE INDEX {} ON t ({})", ix, cols) }),
+        7 => {
+            // drop and re-create inside the same transaction
+            if mem.db.index_exists(ix) {
+                v.push(format!("DROP INDEX {}", ix));
+            }
+            v.push(gen_dml(rng, next_id, spread));
+            v.push(format!("CREATE INDEX {} ON t ({})", ix, cols));
+        }
+        _ => {}
+    }
+    if !dropped_table {
+        for _ in 0..rng.range(0, 2) {
+            v.push(gen_dml(rng, next_id, spread));
+        }
+    }
+    let rollback = rng.chance(3, 5);
+    v.push(if rollback { "ROLLBACK".into() } else { "COMMIT".into() });
+    if dropped_table && !rollback {
+        // the table is gone for good: start over so that the rest of the history is not all errors
+        v.push(create_table_sql().to_string());
+        for _ in 0..6 {
+            let r = gen_row(rng, *next_id, spread);
+            *next_id += 1;
+            v.push(format!("INSERT INTO t SELECT {}", r.iter().map(lit).collect::<Vec<_>>().join(", ")));
+        }
+        for (ix, cols, _) in indexes().iter().copied() {
+            v.push(format!("CREATE INDEX {} ON t ({})", ix, cols));
+        }
+    }
+    v.extend(gen_probe_queries(rng, ixi, spread));
+    v
 }
 
 /// Mode A: SQL workload
@@ -274,10 +383,23 @@ fn mode_a(args: &Args, id: u64, rng: &mut Rng, rep: &mut Report, n_rows: usize, 
         let _ = std::fs::remove_dir_all(&dir);
         return sh;
     }
-    for _ in 0..n_stmts {
+    let mut pending: std::collections::VecDeque<String> = std::collections::VecDeque::new();
+    let mut n_done = 0usize;
+    while n_done < n_stmts || !pending.is_empty() {
+        n_done += 1;
         let v = |rng: &mut Rng| rng.range(0, spread);
         let x = rng.below(100);
-        let (sql, ordered) = if schema() == 1 {
+        if pending.is_empty() && rng.chance(1, 9) {
+            pending.extend(gen_txn_block(rng, &mut next_id, spread, &mem));
+            rep.count("txn_blocks");
+        } else if pending.is_empty() && rng.chance(1, 30) {
+            // index DDL outside a transaction
+            let (ix, cols, _) = indexes()[rng.below(indexes().len() as u64) as usize];
+            pending.push_back(if mem.db.index_exists(ix) { format!("DROP INDEX {}", ix) } else { format!("CREATE INDEX {} ON t ({})", ix, cols) });
+        }
+        let (sql, ordered) = if let Some(s) = pending.pop_front() {
+            (s, false)
+        } else if schema() == 1 {
             gen_stmt_u(rng, &mut next_id, spread)
         } else if x < 18 {
             let r = gen_row(rng, next_id, spread);
@@ -317,13 +439,17 @@ fn mode_a(args: &Args, id: u64, rng: &mut Rng, rep: &mut Report, n_rows: usize, 
             }
         };
         let (om, od) = both(&mut mem, &mut disk, &sql);
-        rep.count(&format!("stmt_{}", sql.split(' ').next().unwrap_or("")));
+        rep.count(&format!("stmt_{}", sql.split(' ').take(if sql.starts_with("DROP") || sql.starts_with("CREATE") || sql.starts_with("ROLLBACK TO") { 2 } else { 1 }).collect::<Vec<_>>().join("_")));
         let (cm, cd) = (out_canon(&om, ordered), out_canon(&od, ordered));
         if cm != cd {
             fail(rep, &mem, &format!("{} gives different results on the two index backends", sql.split(' ').next().unwrap_or("")), &format!("last statement\n-- in-memory : {}\n-- disk-backed: {}", cm, cd));
             break;
         }
-        if let Err(e) = compare_indexes(&mem, &disk, rep, true) {
+        if mem.db.in_transaction() != disk.db.in_transaction() {
+            fail(rep, &mem, "transaction state differs between the twins", "in_transaction()");
+            break;
+        }
+        if let Err(e) = compare_indexes(&mem, &disk, rep, false) {
             fail(rep, &mem, "index contents differ between the backends", &e);
             break;
         }
@@ -727,6 +853,127 @@ fn probe_fractional(args: &Args, id: u64, rep: &mut Report) -> bool {
     ok
 }
 
+/// deterministic probe: index DDL and DML inside transactions, then ROLLBACK / COMMIT, on both twins;
+/// after every statement results, registries and index contents are compared; after a ROLLBACK the
+/// restored indexes must answer (SQL and `IndexData::get` / `range_scan`) as at BEGIN
+fn probe_txn(args: &Args, id0: &mut u64, rep: &mut Report) -> bool {
+    set_schema(0);
+    let init: Vec<Vec<SqlValue>> = vec![
+        vec![iv(0), iv(7), sv("x"), iv(1)],
+        vec![iv(1), iv(7), sv("x"), iv(2)],
+        vec![iv(2), iv(8), sv("y"), iv(1)],
+        vec![iv(3), iv(8), sv("z"), iv(3)],
+        vec![iv(4), iv(9), sv("x"), iv(1)],
+        vec![iv(5), iv(5), sv("w"), iv(0)],
+    ];
+    // (statements, true = the database must be back at the initial state afterwards)
+    let scripts: Vec<(Vec<&str>, bool)> = vec![
+        (vec!["BEGIN", "UPDATE t SET a = 9 WHERE id = 0", "DROP INDEX ix_a", "ROLLBACK"], true),
+        (vec!["BEGIN", "UPDATE t SET a = 1 WHERE a = 7", "DELETE FROM t WHERE id = 4", "DROP INDEX ix_ac", "DROP INDEX ix_a", "ROLLBACK"], true),
+        (vec!["BEGIN", "DELETE FROM t WHERE id = 1", "UPDATE t SET b = 'q' WHERE id = 2", "DROP TABLE t", "ROLLBACK"], true),
+        (vec!["BEGIN", "DROP INDEX ix_b", "INSERT INTO t SELECT 6, 7, 'x', 1", "CREATE INDEX ix_b ON t (b)", "UPDATE t SET b = 'y' WHERE id = 0", "ROLLBACK"], true),
+        (vec!["BEGIN", "INSERT INTO t SELECT 6, 7, 'x', 1", "UPDATE t SET a = 8 WHERE id = 1", "ROLLBACK"], true),
+        (vec!["BEGIN", "UPDATE t SET a = 9 WHERE id = 0", "SAVEPOINT s1", "UPDATE t SET a = 5 WHERE id = 1", "DROP INDEX ix_ac", "ROLLBACK TO SAVEPOINT s1", "COMMIT"], false),
+        (vec!["BEGIN", "UPDATE t SET a = 9 WHERE id = 0", "DROP INDEX ix_a", "COMMIT", "CREATE INDEX ix_a ON t (a)"], false),
+        (vec!["BEGIN", "UPDATE t SET b = 'y' WHERE id = 0", "SAVEPOINT s1", "DELETE FROM t WHERE a = 8", "ROLLBACK TO SAVEPOINT s1", "DROP INDEX ix_b", "ROLLBACK"], true),
+    ];
+    let queries = ["SELECT id FROM t WHERE a = 7", "SELECT id FROM t WHERE a > 7", "SELECT id FROM t WHERE a <= 8", "SELECT id FROM t WHERE b = 'x'", "SELECT id FROM t WHERE b >= 'y'", "SELECT id FROM t WHERE a = 8 AND c > 0", "SELECT id FROM t WHERE a IN (5, 9)"];
+    let ids = |o: &Out| -> Option<Vec<i64>> {
+        match o {
+            Out::Rows(r) => {
+                let mut v: Vec<i64> = r.iter().filter_map(|x| if let SqlValue::Integer(i) = x[0] { Some(i) } else { None }).collect();
+                v.sort();
+                Some(v)
+            }
+            _ => None,
+        }
+    };
+    let mut all_ok = true;
+    for (script, back_to_init) in &scripts {
+        *id0 += 1;
+        let (mut mem, mut disk, dir) = twins(args, *id0);
+        for db in [&mut mem, &mut disk] {
+            db.exec(create_table_sql());
+            for r in &init {
+                db.exec(&format!("INSERT INTO t SELECT {}", r.iter().map(lit).collect::<Vec<_>>().join(", ")));
+            }
+            for (ix, cols, _) in indexes().iter().copied() {
+                db.exec(&format!("CREATE INDEX {} ON t ({})", ix, cols));
+            }
+        }
+        let mut ok = compare_indexes(&mem, &disk, rep, true).is_ok();
+        // the answers at BEGIN, from the in-memory twin before anything happens (checked below against
+        // the rows themselves through the index API)
+        let before: Vec<Option<Vec<i64>>> = queries.iter().map(|q| ids(&mem.exec(q))).collect();
+        let mut detail = String::new();
+        let mut stmts: Vec<String> = script.iter().map(|s| s.to_string()).collect();
+        stmts.extend(queries.iter().map(|s| s.to_string()));
+        for sql in &stmts {
+            let (a, b) = (mem.exec(sql), disk.exec(sql));
+            rep.count("probe_txn_statements");
+            if out_canon(&a, false) != out_canon(&b, false) {
+                detail = format!("{}: in-memory {} / disk-backed {}", sql, out_canon(&a, false), out_canon(&b, false));
+                ok = false;
+                break;
+            }
+            if let Err(e) = compare_indexes(&mem, &disk, rep, false) {
+                detail = format!("after {}: {}", sql, e);
+                ok = false;
+                break;
+            }
+        }
+        if ok && *back_to_init {
+            for (q, want) in queries.iter().zip(before.iter()) {
+                for (name, db) in [("in-memory", &mut mem), ("disk-backed", &mut disk)] {
+                    let got = ids(&db.exec(q));
+                    if &got != want {
+                        detail = format!("{} twin after ROLLBACK: {} gives {:?}, at BEGIN it gave {:?}", name, q, got, want);
+                        ok = false;
+                    }
+                }
+            }
+            // index API after the rollback: every index is back and maps each key to the rows holding it
+            for (ix, _, _) in indexes().iter().copied() {
+                for (name, db) in [("in-memory", &mem), ("disk-backed", &disk)] {
+                    let Some(data) = db.db.get_index_data(ix) else {
+                        detail = format!("{} twin: index {} is missing after ROLLBACK", name, ix);
+                        ok = false;
+                        continue;
+                    };
+                    let mut want: BTreeMap<Vec<SqlValue>, Vec<usize>> = BTreeMap::new();
+                    for (i, r) in init.iter().enumerate() {
+                        want.entry(key_of(r, ix)).or_default().push(i);
+                    }
+                    for (k, rows) in &want {
+                        let mut got = data.get(k).unwrap_or_default();
+                        got.sort();
+                        let mut scan = data.range_scan(Some(&k[0]), Some(&k[0]), true, true);
+                        scan.sort();
+                        let scan_want: Vec<usize> = init.iter().enumerate().filter(|(_, r)| key_of(r, ix)[0] == k[0]).map(|(i, _)| i).collect();
+                        rep.count("probe_txn_index_api_checks");
+                        if &got != rows || scan != scan_want {
+                            detail = format!("{} twin after ROLLBACK: index {} key {}: get {:?} (rows holding it {:?}), range_scan {:?} (expected {:?})", name, ix, canon::row(k), got, rows, scan, scan_want);
+                            ok = false;
+                        }
+                    }
+                }
+            }
+        }
+        if !ok {
+            rep.fail(
+                FailKind::Oracle,
+                None,
+                "transaction probe: index DDL / DML inside a transaction leaves the backends different or the restored index stale",
+                &format!("-- twin A: Database::new(); twin B: with_path_and_config(dir, memory_budget 0, SpillToDisk)\n{};\n-- {}\n", mem.log.join(";\n"), detail),
+            );
+            all_ok = false;
+        }
+        drop(disk);
+        let _ = std::fs::remove_dir_all(&dir);
+    }
+    all_ok
+}
+
 fn iv(i: i64) -> SqlValue {
     SqlValue::Integer(i)
 }
@@ -752,6 +999,9 @@ fn main() {
     rep.count("probe_cases");
     rep.case("probe fractional keys", okp);
     set_schema(0);
+    let okt = probe_txn(&args, &mut id, &mut rep);
+    rep.count("probe_cases");
+    rep.case("probe transactions with index DDL", okt);
     // deterministic probes: duplicate key, update / delete of one of the rows sharing it
     let init = vec![vec![iv(0), iv(7), sv("x"), iv(1)], vec![iv(1), iv(7), sv("x"), iv(1)], vec![iv(2), iv(7), sv("y"), iv(2)], vec![iv(3), iv(8), sv("y"), iv(2)]];
     for ops in [
